@@ -81,7 +81,7 @@ class C02(Check):
                                 flavours=['valid'] * 12 + ['unknown-method'] * 2 + ['deviant', 'non-object'])
             return st.builds(
                 lambda text, beh, mbs, codec: {'dispatcher': kind, 'max_batch_size': batch_limit(text, mbs), 'behaviours': beh, 'text': text, 'codec': codec},
-                gen, stdreg.behaviours(), st.sampled_from(BATCH_LIMITS + ['-1', '0', '+1']), st.sampled_from(CODEC_CHOICES),
+                gen, stdreg.behaviours(True), st.sampled_from(BATCH_LIMITS + ['-1', '0', '+1']), st.sampled_from(CODEC_CHOICES),
             )
         return st.one_of(for_kind('sync'), for_kind('async'))
 
